@@ -398,10 +398,47 @@ def _h_injective(layout_name, l1, l2):
     return fn
 
 
+MSG_DIRS = ('cur', 'new', 'tmp')
+
+
+def inside_message_dir(p1, p2):
+    """p1 is, or lies below, one of the message directories (cur/new/tmp) of the folder at p2"""
+    for d in MSG_DIRS:
+        pre = p2 + '/' + d
+        if len(p1) == len(pre):
+            if bool(p1 == pre):
+                return d
+        elif len(p1) > len(pre):
+            if bool(p1[:len(pre) + 1] == pre + '/'):
+                return d
+    return None
+
+
+def _h_nested(layout_name, l1, l2):
+    """a folder must not live inside the message directories of another folder (or of INBOX): CREATE would answer OK
+    for a mailbox LIST never shows, and its control files would be read as messages of the other folder"""
+    def fn(eng):
+        from pysymex import fresh_str, Outcome
+        n1 = fresh_str(eng, 'a', l1, hi=0x7f)
+        n2 = fresh_str(eng, 'b', l2, hi=0x7f) if l2 else 'INBOX'
+        wit = lambda m: {'layout': layout_name, 'n1': n1.concrete(m), 'n2': n2.concrete(m) if l2 else 'INBOX'}  # noqa: E731
+        p1, p2 = name_paths(layout_name, n1, n2)
+        if p1 is None or p2 is None:
+            return Outcome(True, witness=wit, site='refused')
+        d = inside_message_dir(p1, p2)
+        return Outcome(d is None, witness=wit, site='compared', info='a folder inside the %s directory of another' % d)
+    return fn
+
+
 def harnesses(tier):
     from pysymex.runner import Harness
     q = tier == 'quick'
     hs = []
+    for layout in ('++', 'fs'):
+        for l1, l2 in ([(3, 0), (4, 0), (5, 1)] if q else [(3, 0), (4, 0), (5, 0), (5, 1), (6, 2), (7, 3)]):
+            hs.append(Harness('maildir_folder_in_message_dir[%s,len=%d,%d]' % (layout, l1, l2), _h_nested(layout, l1, l2),
+                              {'layout': layout, 'name_lengths': [l1, l2 or 'INBOX'], 'characters': 'ASCII, symbolic'},
+                              replay='nested', task_budget=60))
     for layout in ('++', 'fs'):
         for l1, l2 in ([(1, 1), (2, 2), (3, 3), (3, 2)] if q else [(1, 1), (2, 2), (3, 3), (3, 2), (4, 4), (4, 3), (5, 5)]):
             hs.append(Harness('maildir_names_injective[%s,len=%d,%d]' % (layout, l1, l2), _h_injective(layout, l1, l2),
@@ -442,6 +479,15 @@ def replay(harness, w):
         if n1 != n2 and p1 is not None and p1 == p2:
             bad.append('the %s layout resolves both %r and %r to %s' % (w['layout'], n1, n2, p1))
         return {'violates': bool(bad), 'detail': bad[:3], 'category': 'two names, one folder (%s)' % w['layout']}
+    if harness == 'nested':
+        n1 = ''.join(map(chr, w['n1'])) if not isinstance(w['n1'], str) else w['n1']
+        n2 = ''.join(map(chr, w['n2'])) if not isinstance(w['n2'], str) else w['n2']
+        p1, p2 = name_paths(w['layout'], n1, n2)
+        if p1 is not None and p2 is not None:
+            d = inside_message_dir(p1, p2)
+            if d is not None:
+                bad.append('the %s layout puts mailbox %r at %s, inside the %s directory of %r' % (w['layout'], n1, p1, d, n2))
+        return {'violates': bool(bad), 'detail': bad[:3], 'category': 'a folder inside a message directory (%s)' % w['layout']}
     if harness == 'wildcards':
         names = [''.join(chr(c) for c in n) for n in w['names']]
         query = ''.join(chr(c) for c in w['query'])
